@@ -136,6 +136,15 @@ func (e *Explorer[O, L]) rec(ctx sdk.Context, ledger L, remaining, level int, tr
 			e.R.Transitions++
 			if outcome != "ok" {
 				e.R.Rejected[outcome]++
+				// keep the first (shortest-first order) history per rejection class as evidence
+				rs, _ := e.R.Extra["rejected_samples"].(map[string]interface{})
+				if rs == nil {
+					rs = map[string]interface{}{}
+					e.R.Extra["rejected_samples"] = rs
+				}
+				if _, ok := rs[outcome]; !ok && len(rs) < 40 {
+					rs[outcome] = map[string]interface{}{"seed_state": e.seedName, "config": e.Sc.Config, "ops": tr}
+				}
 			}
 		}
 		k := e.key(next, l2)
